@@ -8,6 +8,10 @@ and passes without, (3) run the named checks (default: the property the change t
 against the patched tree through PROVSIM_REPO, (4) remove the worktree.  With --in-repo
 the patch is applied to /repo itself (git apply) and undone afterwards (git checkout -- .).
 Writes/updates meta.json["evaluation"].
+
+--dir benign evaluates /verif/benign/<name>/ instead: changes that alter behaviour no
+property constrains, where the expected result is that *no* check reports anything (use
+with --all-checks); --keep-logs DIR keeps the output and replay files of non-zero exits.
 """
 import json
 import os
@@ -36,6 +40,8 @@ def run_demo(demo, src):
 def main(argv):
     checks_override = None
     in_repo = False
+    subdir = "seeded"
+    keep_logs = None
     names = []
     i = 0
     while i < len(argv):
@@ -51,13 +57,19 @@ def main(argv):
             i += 1
         elif argv[i] == "--skip-tests":
             i += 1
+        elif argv[i] == "--dir":  # "benign": property-preserving changes, every check must stay silent
+            subdir = argv[i + 1]
+            i += 2
+        elif argv[i] == "--keep-logs":
+            keep_logs = argv[i + 1]
+            i += 2
         else:
             names.append(argv[i])
             i += 1
     if not names:
-        names = sorted(os.listdir(os.path.join(VERIF, "seeded")))
+        names = sorted(os.listdir(os.path.join(VERIF, subdir)))
     for name in names:
-        d = os.path.join(VERIF, "seeded", name)
+        d = os.path.join(VERIF, subdir, name)
         meta_p = os.path.join(d, "meta.json")
         meta = json.load(open(meta_p)) if os.path.exists(meta_p) else {}
         patch = os.path.join(d, "patch.diff")
@@ -101,6 +113,12 @@ def main(argv):
                 code = os.environ.get("PROVSIM_VERIF_CODE", VERIF)  # e.g. an older commit of /verif
                 r = sh([PY, "-m", "provsim.check", c, "quick"], env=env, cwd=code, timeout=3000)
                 out = r.stdout.decode("utf-8", "replace")
+                if keep_logs and r.returncode != 0:
+                    os.makedirs(os.path.join(keep_logs, name), exist_ok=True)
+                    open(os.path.join(keep_logs, name, c + ".log"), "w").write(out)
+                    rp = os.path.join(base, "replays", c)
+                    if os.path.isdir(rp):
+                        shutil.copytree(rp, os.path.join(keep_logs, name, c + "-replays"), dirs_exist_ok=True)
                 viol = [l for l in out.splitlines() if l.startswith("VIOLATION")]
                 sigs = [l.strip()[:200] for l in out.splitlines() if l.strip().startswith("signature=")]
                 ev["checks"][c] = {"exit": r.returncode, "violations": len(viol), "signatures": sigs[:4],
